@@ -538,6 +538,15 @@ func (e *SpecEnv) call(n *SCall) Val {
 	case "key3":
 		a, b, c := e.evalInt(n.Args[0]), e.evalInt(n.Args[1]), e.evalInt(n.Args[2])
 		return scInt(app("key!3", a, b, c))
+	case "same":
+		return scBool(vEqRepr(e.eval(n.Args[0]), e.eval(n.Args[1])))
+	case "openFails":
+		e.c().declareFun("aio!fails", []string{SStr}, SBool)
+		return scBool(app("aio!fails", e.eval(n.Args[0]).(Sc).T))
+	case "opened":
+		return openedObj(e.c(), e.eval(n.Args[0]).(Sc).T)
+	case "items":
+		return e.itemsOf(n)
 	case "seen":
 		s, ok := e.curState().ghost["seen"]
 		if !ok {
@@ -613,4 +622,37 @@ func (e *SpecEnv) callSpec(sf *SpecFunc, args []Val) Val {
 		return Sc{sf.Name, ret}
 	}
 	return Sc{app(sf.Name, ts...), ret}
+}
+
+// openedObj is the reader aio.Open returns for a path: a function of the path.
+func openedObj(c *Ctx, p string) Obj {
+	c.declareFun("aio!opened", []string{SStr}, SInt)
+	c.declareFun("aio!fails", []string{SStr}, SBool)
+	return Obj{"io.Reader", map[string]Val{"id": scInt(app("aio!opened", p)), "consumed": scInt("0"), "isnil": scBool(app("aio!fails", p))}}
+}
+
+// itemsOf: items(F, args...) is the full (never stopped) trace of iterator
+// function F of the current package applied to args.
+func (e *SpecEnv) itemsOf(n *SCall) Val {
+	id, ok := n.Args[0].(*SIdent)
+	if !ok {
+		e.fail("items: first argument must name an iterator function")
+	}
+	pkg := e.x.pkg
+	obj := pkg.types.Scope().Lookup(id.Name)
+	fn, ok := obj.(*types.Func)
+	if !ok {
+		e.fail("items: %s is not a function of package %s", id.Name, pkg.name)
+	}
+	sig := fn.Type().(*types.Signature)
+	var args []Val
+	for _, a := range n.Args[1:] {
+		args = append(args, e.eval(a))
+	}
+	seqT, ok := sig.Results().At(0).Type().Underlying().(*types.Signature)
+	if !ok {
+		e.fail("items: %s does not return an iterator", id.Name)
+	}
+	ysig := seqT.Params().At(0).Type().Underlying().(*types.Signature)
+	return e.x.traceOf(e.c().eng.qualName(fn), ysig, args, nil, "Zs")
 }
